@@ -315,16 +315,16 @@ def rebuild_scripts(ctx, R, classes, phases_per_pair, n_pairs):
     bands = [(2, 60), (100, 450), (600, 950)]        # generation phase 1 / 2 / 3 (measured, see evidence)
     for a, b in pairs:
         ra, rb = R.dump_path(a, "tt"), R.dump_path(b, "tt")
-        ops = []
         fr = [rng.randint(*bands[i % 3]) for i in range(phases_per_pair)]
-        for f in fr:
-            ops += [("U", a, -1), ("P", a, 997, ra),
-                    ("U", b, "p%d" % f), ("P", a, 97, ra), ("P", b, 97, rb),
-                    ("H", 150000), ("P", a, 97, ra), ("P", b, 97, rb),
-                    ("U", a, -1), ("P", a, 97, ra), ("C",)]
-        ops += [("U", a, -1), ("U", b, -1), ("P", a, 997, ra), ("P", b, 97, rb), ("H", 150000),
-                ("U", a, -1), ("P", a, 97, ra), ("P", b, 997, rb)]
-        scripts.append((a + ">" + b, ops))
+        for f in fr:         # one process (one hash table) per history: short chains, run in parallel
+            scripts.append(("%s>%s@%d" % (a, b, f),
+                            [("U", a, -1), ("P", a, 997, ra),
+                             ("U", b, "p%d" % f), ("P", a, 97, ra), ("P", b, 97, rb),
+                             ("H", 150000), ("P", a, 97, ra), ("P", b, 97, rb),
+                             ("U", a, -1), ("P", a, 97, ra)]))
+        scripts.append((a + ">" + b + ">" + a,
+                        [("U", a, -1), ("U", b, -1), ("P", a, 997, ra), ("P", b, 97, rb), ("H", 150000),
+                         ("U", a, -1), ("P", a, 97, ra), ("P", b, 997, rb)]))
     if pairs:
         a, b = pairs[0]
         va, vb = R.dump_path(a, "vec"), R.dump_path(b, "vec")
